@@ -5,7 +5,8 @@ Open Scope N_scope.
 
 Inductive case :=
   | CS (t : tid) (input out : bytes) (changed err : bool)
-  | CL (ts : list tid) (input out : bytes) (nerr : nat) (multi : list bytes).
+  | CL (ts : list tid) (input out : bytes) (nerr : nat) (multi : list bytes)
+  | CU (input out : bytes) (changed : bool).   (* urlDecodeUni, under the regenerated best-fit table *)
 
 Fixpoint list_bytes_eqb (a b : list bytes) : bool :=
   match a, b with
@@ -14,8 +15,10 @@ Fixpoint list_bytes_eqb (a b : list bytes) : bool :=
   | _, _ => false
   end.
 
-Definition ok (c : case) : bool :=
+Definition ok (tbl : N -> option N) (c : case) : bool :=
   match c with
+  | CU i o ch =>
+    let r := t_url_decode_uni tbl i in bytes_eqb (t_out r) o && Bool.eqb (t_changed r) ch && negb (t_err r)
   | CS t i o ch e =>
     let r := apply_t t i in
     bytes_eqb (t_out r) o && Bool.eqb (t_changed r) ch && Bool.eqb (t_err r) e
@@ -24,4 +27,4 @@ Definition ok (c : case) : bool :=
     bytes_eqb o' o && Nat.eqb n' n && list_bytes_eqb (exec_tfs_multi ts i) m
   end.
 
-Definition mismatches (l : list case) : list nat := mismatches_of ok l.
+Definition mismatches (tbl : N -> option N) (l : list case) : list nat := mismatches_of (ok tbl) l.
